@@ -110,7 +110,10 @@ class Facts:
                 return None
             if isinstance(op, (ast.Is, ast.IsNot)) and isinstance(e.comparators[0], ast.Constant) and e.comparators[0].value is None:
                 return None
-            text = f'{U(e.left)} {pos} {U(e.comparators[0])}'
+            l, r = U(e.left), U(e.comparators[0])
+            if pos == '==' and r < l:
+                l, r = r, l  # symmetric: one canonical operand order
+            text = f'{l} {pos} {r}'
             if self.tracked(text):
                 return text, isinstance(op, (ast.NotEq, ast.NotIn, ast.IsNot))
         return None
